@@ -1,5 +1,5 @@
 (* C14 - Everything h3 writes is valid HTTP/3, however the transport takes it. *)
-From H3V Require Import Base.Bytes Spec.RFC9000 Spec.RFC9114Wire Model.Varint Model.Datagram Model.FrameEnc
+From H3V Require Import Base.Bytes Gen.GenWriters Spec.RFC9000 Spec.RFC9114Wire Model.Varint Model.Datagram Model.FrameEnc
   Model.WriteBuf Model.Writers Proofs.DatagramProofs Proofs.WriteBufProofs Proofs.FrameEncProofs
   Proofs.WireParseProofs Proofs.WritersProofs.
 
@@ -107,6 +107,18 @@ Proof. exact config_settings_good. Qed.
    reserved as soon as the type is out; request streams = complete DATA / HEADERS / 31N+33-type frames only.
    Premise of the model (DESIGN): API write futures are polled to completion; the only write h3 itself may stop
    polling is the grease stream's (kept as a cut in the model). *)
+(* CLOSED-WORLD FACT the theorem rests on: the automaton `run` has a transition for every call site of the census
+   C14_write_site_census and for nothing else.  Programs are sequences over: a control frame of the peer met by
+   poll_control (with the role handlers: SETTINGS, GOAWAY incl. H3_ID_ERROR and the client's request-id test,
+   MAX_PUSH_ID / CANCEL_PUSH, skipped unknown types, illegal frames = connection error; the grease stream advances only
+   here), accept() idle (final GOAWAY once a GOAWAY was received and nothing is ongoing), accept + resolve with its
+   outcomes (handle, 431 answer, stream / connection error), send_request, send_response / send_trailers, send_data,
+   finish, stop_stream, a peer STOP_SENDING, drop, shutdown(n).  NOT in the alphabet (premises): RequestStream::split(),
+   SendRequest clones, and direct calls of the public plumbing `conn.inner.send_control_stream_headers()` /
+   `conn.inner.shutdown::<T>()` - calling the former twice does put a second SETTINGS on the control stream. *)
+Theorem C14_write_site_census : write_sites = expected_write_sites.
+Proof. exact gen_write_sites. Qed.
+
 Theorem C14_program_output_valid :
   forall server cfg g prog, g < grease_range -> Forall op_ok prog ->
     exists r, run server cfg g prog = Ok r /\
@@ -166,7 +178,7 @@ Proof. eexists. repeat split; vm_compute; reflexivity. Qed.
 
 Definition ex_cfg : config := {| cf_grease := true; cf_mfs := 1000; cf_ext := false; cf_wt := false; cf_dgram := true; cf_wtn := 0 |}.
 Definition ex_prog : list op :=
-  [OPeerFrame 1 2 None; OAccept 0 None; OHeaders 0 (Some [0; 0; 217]); OData 0 [[104; 105]]; OFinish 0 7; OShutdown 2].
+  [OPeerControl PSettings 1 2 None; OAccept 0 (AHandle false); OHeaders 0 (Some [0; 0; 217]); OData 0 [[104; 105]]; OFinish 0 7; OShutdown 2].
 Example C14_program_inhabited :
   Forall op_ok ex_prog /\
   match run true ex_cfg 5 ex_prog with
@@ -183,6 +195,21 @@ Proof.
   - unfold ex_prog. repeat constructor; try (vm_compute; reflexivity); try discriminate.
   - vm_compute. reflexivity.
 Qed.
+
+(* a peer GOAWAY: the server finishes its grease stream on the next returned frame, and once the request is dropped an
+   idle accept() sends the final GOAWAY (id 4 = last accepted + 4) *)
+Example C14_peer_goaway_inhabited :
+  match run true ex_cfg 5 [OPeerControl PSettings 1 2 (Some 3); OAccept 0 (AHandle false); OPeerControl (PGoaway 0) 9 9 None;
+                           OPoll; ODrop 0; OPoll; OPeerControl (PGoaway 4) 9 9 None; OAccept 4 (AHandle false)] with
+  | Ok (Some c) =>
+      map (fun s => (s_id s, s_fin s, stream_wire s)) (c_streams c) =
+        [ (3, false, [0; 4; 20; 64; 188; 0; 6; 67; 232; 8; 0; 171; 96; 55; 66; 0; 51; 1; 171; 96; 55; 67; 0;  7; 1; 4]);
+          (11, false, [3]); (7, false, [2]);
+          (15, true, [64; 64; 64; 95; 6; 103; 114; 101; 97; 115; 101]);
+          (0, false, []); (4, false, []) ] /\ c_conn_error c = true
+  | _ => False
+  end.
+Proof. vm_compute. split; reflexivity. Qed.
 
 (* observation: Frame::PushPromise encodes its field section into the header array AND exposes it as the payload,
    so a WriteBuf built from it would carry the section twice behind a length that covers it once (and panics
@@ -209,6 +236,7 @@ Print Assumptions C14_from_stream_type.
 Print Assumptions C14_from_bidi_header.
 Print Assumptions C14_header_fits.
 Print Assumptions C14_config_settings_fit.
+Print Assumptions C14_write_site_census.
 Print Assumptions C14_program_output_valid.
 Print Assumptions C14_scripts_deliver_the_wire.
 Print Assumptions C14_any_program_any_scripts.
